@@ -164,15 +164,24 @@ func runC16(c *fw.Ctx) int {
 }
 
 func expectedFileNames(g *genpipe.Generated) []string {
-	prefix := strings.TrimSuffix(g.FileProto.GetName(), ".proto")
+	out := expectedFileNamesOf(g, g.Schema, strings.TrimSuffix(g.FileProto.GetName(), ".proto"))
+	if g.Schema.Dep != nil && g.Schema.GenDep {
+		// the imported file was handed to the generator in the same request
+		out = append(out, expectedFileNamesOf(g, g.Schema.Dep, strings.TrimSuffix(genpipe.DepFileName(g.FileProto.GetName()), ".proto"))...)
+		sort.Strings(out)
+	}
+	return out
+}
+
+func expectedFileNamesOf(g *genpipe.Generated, sch *genpipe.Schema, prefix string) []string {
 	if !g.Variant.PerMessage {
-		if len(g.Schema.Messages) == 0 {
+		if len(sch.Messages) == 0 {
 			return nil // nothing to generate code for: no file (as in file-per-message mode)
 		}
 		return []string{prefix + ".pb.fm.go"}
 	}
 	var names []string
-	collectMessages(g.Schema.Messages, "", &names)
+	collectMessages(sch.Messages, "", &names)
 	var out []string
 	for _, n := range names {
 		short := n
@@ -186,7 +195,7 @@ func expectedFileNames(g *genpipe.Generated) []string {
 }
 
 func rerun(pl *genpipe.Plugins, g *genpipe.Generated) string {
-	req := &pluginpb.CodeGeneratorRequest{FileToGenerate: []string{g.FileProto.GetName()}, Parameter: proto.String(g.Variant.FMParam()),
+	req := &pluginpb.CodeGeneratorRequest{FileToGenerate: g.FMToGen, Parameter: proto.String(g.Variant.FMParam()),
 		ProtoFile: append(append([]*descriptorpb.FileDescriptorProto{}, g.Deps...), g.FileProto), CompilerVersion: &pluginpb.Version{Major: proto.Int32(3), Minor: proto.Int32(21), Patch: proto.Int32(0)}}
 	in, _ := proto.Marshal(req)
 	cmd := exec.Command(pl.FastMarshal)
